@@ -117,32 +117,27 @@ def normalize_types(f):
                 o = o._reverse()
 
         else:
-            if not self._reversed and not o._reversed:
-                pass
+            if self._reversed != o._reversed:
+                # one of the operands is reversed: bring both to the same representation (_reverse() keeps the value and
+                # switches between the plain and the reversed representation), preferably without losing precision
+                if _lossless_reverse(self):
+                    self = self._reverse()
+                elif _lossless_reverse(o):
+                    o = o._reverse()
+                elif self._reversed:
+                    # Force reverse
+                    self = self._reverse()
+                else:
+                    o = o._reverse()
 
-            elif self._reversed and o._reversed:
+            if self._reversed and o._reversed:
+                # work on the un-reversed data with the flags cleared (f may call other normalized operations) and
+                # reverse the result
                 reverse_back = True
                 self = self.copy()
                 self._reversed = False
                 o = o.copy()
                 o._reversed = False
-
-            else:
-                # one of the operands is reversed
-                if _lossless_reverse(self):
-                    self = self._reverse()
-                    if o._reversed:
-                        reverse_back = True
-                elif _lossless_reverse(o):
-                    o = o._reverse()
-                    if self._reversed:
-                        reverse_back = True
-                else:
-                    # Force reverse
-                    if self._reversed:
-                        self = self._reverse()
-                    if o._reversed:
-                        o = o._reverse()
 
         ret = f(self, o)
         if isinstance(ret, StridedInterval):
